@@ -295,7 +295,7 @@ var hostileTokens = []string{"(", ")", "[", "]", ",", "!", `"`, ";", "-", "if", 
 // genMutated renders a valid program and damages it.
 func genMutated(t *rapid.T, infix bool) string {
 	g := &G{t: t, GenCfg: GenCfg{Depth: rapid.IntRange(1, 4).Draw(t, "depth"), MaxArity: 3, Custom: true, Aliases: true, Failing: true}}
-	tree := wrapRoot(g.Expr(rootTy(t), g.Depth))
+	tree := wrapRoot(g.Program(rootTy(t)))
 	fixEmptyLists(tree)
 	var toks []string
 	if infix {
